@@ -5,6 +5,7 @@ CONSTANTS
   ExitOnFlag = FALSE
   LearnOnTerminal = TRUE
   DrainOnEnd = TRUE
+  RewardTotal = TRUE
 SPECIFICATION Spec
 INVARIANT NoPhantomLearn
 INVARIANT Attribution
